@@ -1078,11 +1078,14 @@ def _np_zeros(fill):
             shape = (int(shape),)
         if has_sym_deep(list(shape)):
             raise Unsupported("np.zeros/ones with symbolic shape")
+        dtype = kwargs.get("dtype", args[1] if len(args) > 1 else None)
+        kind = _dtype_kind(dtype) if dtype is not None else "f"
+        f = fill if kind == "f" else (int(fill) if kind == "i" else bool(fill))
         def build(sh):
             if not sh:
-                return fill
+                return f
             return [build(sh[1:]) for _ in range(sh[0])]
-        return NDArr(build(tuple(shape)), tuple(shape), "f")
+        return NDArr(build(tuple(shape)), tuple(shape), kind)
     return model
 
 
